@@ -283,25 +283,38 @@ structure WState where
 /-- Result of one loop iteration: new state and the number of bytes consumed (`len(cando)`). -/
 abbrev StepRes := Option (WState × Nat)
 
-/-- One iteration of the loop in `filenode.Write` for remaining data `p` (non-empty). The slice
+/-- `prev >= 0 && segments[prev].Len() < maxBlockSize && segments[prev] is a *memSegment`:
+the buffer and flushing state of the appendable previous segment. -/
+def prevApp (max : Nat) (segs : List Seg) (cur : Nat) : Option (Bytes × Flush) :=
+  if cur = 0 then none else
+  match segs[cur - 1]? with
+  | some (Seg.mem buf fl) => if buf.length < max then some (buf, fl) else none
+  | _ => none
+
+/-- Outcome of the "rearrange/grow fn.segments (and shrink cando if needed)" part of an iteration:
+afterwards `cando` can be copied to `segs[idx]` (a mem segment) at offset `off`. -/
+structure Restr where
+  segs : List Seg
+  size : Nat
+  idx : Nat
+  off : Nat
+  cando : Bytes
+  bump : Bool
+
+/-- The case analysis of one iteration of `filenode.Write` for remaining data `p`. The slice
 shuffles (`append`/`copy`) are written as `take ++ new ++ drop`. `none` = panic. -/
-def writeStep (hash : Bytes → Loc) (max : Nat) (w : WState) (p : Bytes) : StepRes :=
-  let fn := w.fn
-  let ptr := w.ptr
+def restructure (max : Nat) (fn : FileNode) (ptr : Ptr) (p : Bytes) : Option Restr :=
   let cando := p.take max
   let cur := ptr.segIdx
   if cur > fn.segs.length then none else
-  let curSeg := fn.segs[cur]?
-  let curWritable := match curSeg with | some s => s.isMem | none => false
-  -- prev >= 0 && segments[prev].Len() < maxBlockSize && segments[prev] is a *memSegment
-  let prevApp : Option (Bytes × Flush) :=
-    if cur = 0 then none else
-    match fn.segs[cur - 1]? with
-    | some (Seg.mem buf fl) => if buf.length < max then some (buf, fl) else none
-    | _ => none
-  -- restructure: new segments, new size, new (segIdx, segOff), cando, repacked bump
-  let r : Option (List Seg × Nat × Nat × Nat × Bytes × Bool) :=
-    if ptr.segOff > 0 ∧ !curWritable then
+  match fn.segs[cur]? with
+  | some (Seg.mem buf _) =>
+    -- curWritable: shrink cando to what fits
+    if ptr.segOff > buf.length then none else
+    some ⟨fn.segs, fn.size, cur, ptr.segOff, cando.take (buf.length - ptr.segOff), false⟩
+  | curSeg =>
+    if ptr.segOff > 0 then
+      -- split a non-writable segment
       match curSeg with
       | none => none
       | some s =>
@@ -309,55 +322,57 @@ def writeStep (hash : Bytes → Loc) (max : Nat) (w : WState) (p : Bytes) : Step
         let mx := s.len - ptr.segOff
         if mx ≤ cando.length then
           let cando := cando.take mx
-          some (fn.segs.take cur ++ [s.slice 0 (some ptr.segOff), memTruncate [] Flush.none cando.length]
-                  ++ fn.segs.drop (cur + 1), fn.size, cur + 1, 0, cando, true)
+          some ⟨fn.segs.take cur ++ [s.slice 0 (some ptr.segOff), memTruncate [] Flush.none cando.length]
+                  ++ fn.segs.drop (cur + 1), fn.size, cur + 1, 0, cando, true⟩
         else
-          some (fn.segs.take cur ++ [s.slice 0 (some ptr.segOff), memTruncate [] Flush.none cando.length,
+          some ⟨fn.segs.take cur ++ [s.slice 0 (some ptr.segOff), memTruncate [] Flush.none cando.length,
                   s.slice (ptr.segOff + cando.length) none] ++ fn.segs.drop (cur + 1),
-                fn.size, cur + 1, 0, cando, true)
-    else if curWritable then
-      match curSeg with
-      | none => none
-      | some s =>
-        if ptr.segOff > s.len then none else
-        some (fn.segs, fn.size, cur, ptr.segOff, cando.take (s.len - ptr.segOff), false)
+                fn.size, cur + 1, 0, cando, true⟩
     else
-      let cando := match prevApp with
+      let pa := prevApp max fn.segs cur
+      let cando := match pa with
         | some (buf, _) => cando.take (max - buf.length)
         | none => cando
-      -- what happens to cur
+      -- what happens to cur: at EOF the file grows; a short cur is dropped; a long cur shrinks
       let (cando, size, rest) : Bytes × Nat × List Seg :=
         match curSeg with
         | none => (cando, fn.size + cando.length, [])
         | some s =>
           if s.len ≤ cando.length then (cando.take s.len, fn.size, fn.segs.drop (cur + 1))
           else (cando, fn.size, s.slice cando.length none :: fn.segs.drop (cur + 1))
-      match prevApp with
+      match pa with
       | some (buf, fl) =>
-        some (fn.segs.take (cur - 1) ++ [memTruncate buf fl (buf.length + cando.length)] ++ rest,
-              size, cur - 1, buf.length, cando, true)
+        -- grow prev
+        some ⟨fn.segs.take (cur - 1) ++ [memTruncate buf fl (buf.length + cando.length)] ++ rest,
+              size, cur - 1, buf.length, cando, true⟩
       | none =>
-        -- `if cur < len(fn.segments)` after the append is always true: repacked is always bumped
-        some (fn.segs.take cur ++ [memTruncate [] Flush.none cando.length] ++ rest,
-              size, cur, 0, cando, true)
-  match r with
+        -- insert a fresh mem segment at cur. (`if cur < len(fn.segments)` after the append is
+        -- always true in the code, so repacked is always bumped.)
+        some ⟨fn.segs.take cur ++ [memTruncate [] Flush.none cando.length] ++ rest, size, cur, 0, cando, true⟩
+
+/-- The tail of an iteration: `WriteAt(cando)`, advance the pointer, prune when the segment offset
+reached `max`, normalise the pointer at a segment end. -/
+def overwrite (hash : Bytes → Loc) (max : Nat) (w : WState) (r : Restr) : StepRes :=
+  match r.segs[r.idx]? with
+  | some (Seg.mem buf _) =>
+    match memWriteAt buf r.cando r.off with
+    | none => none
+    | some s' =>
+      let segs := r.segs.set r.idx s'
+      let off' := r.off + r.cando.length
+      let (segs, st) := if off' ≥ max then pruneSegs hash max segs 0 w.st else (segs, w.st)
+      let (idx', off'') := if s'.len = off' then (r.idx + 1, 0) else (r.idx, off')
+      let rep : Int := if r.bump then 1 else 0
+      some (⟨{ segs := segs, size := r.size, repacked := w.fn.repacked + rep },
+             { off := w.ptr.off + r.cando.length, segIdx := idx', segOff := off'', repacked := w.ptr.repacked + rep },
+             st⟩, r.cando.length)
+  | _ => none
+
+/-- One iteration of the loop in `filenode.Write` for remaining data `p` (non-empty). -/
+def writeStep (hash : Bytes → Loc) (max : Nat) (w : WState) (p : Bytes) : StepRes :=
+  match restructure max w.fn w.ptr p with
   | none => none
-  | some (segs, size, idx, off, cando, bump) =>
-    -- fn.segments[ptr.segmentIdx].(*memSegment).WriteAt(cando, ptr.segmentOff)
-    match segs[idx]? with
-    | some (Seg.mem buf _) =>
-      match memWriteAt buf cando off with
-      | none => none
-      | some s' =>
-        let segs := segs.set idx s'
-        let off' := off + cando.length
-        let (segs, st) := if off' ≥ max then pruneSegs hash max segs 0 w.st else (segs, w.st)
-        let (idx', off'') := if s'.len = off' then (idx + 1, 0) else (idx, off')
-        let rep := if bump then 1 else 0
-        some (⟨{ segs := segs, size := size, repacked := fn.repacked + rep },
-               { off := ptr.off + cando.length, segIdx := idx', segOff := off'', repacked := ptr.repacked + rep },
-               st⟩, cando.length)
-    | _ => none
+  | some r => overwrite hash max w r
 
 inductive WriteRes
   | done (w : WState) (n : Nat)
